@@ -148,7 +148,7 @@ func (g *genCfg) genType1(depth int) *T {
 
 func (g *genCfg) genKeyType() *T {
 	r := g.r
-	if g.arrayKey && r.Intn(3) == 0 {
+	if g.arrayKey && r.Intn(8) == 0 {
 		return &T{K: "array", N: 1 + r.Intn(2), E: &T{K: "prim", P: "PInt8"}}
 	}
 	switch r.Intn(10) {
@@ -511,7 +511,7 @@ func (g *genCfg) boundaryCases() []Case {
 	many := func(n int) *V {
 		out := &V{K: "list", L: []*V{}}
 		for i := 0; i < n; i++ {
-			out.L = append(out.L, &V{K: "int", I: int64(i%7) - 3})
+			out.L = append(out.L, &V{K: "int", I: -3})
 		}
 		return out
 	}
